@@ -380,7 +380,13 @@ def run_property(pid, tier, seed):
                 broken.append({"tie": "suite:" + sname, "detail": "suite crashed: %s: %s" % (type(exc).__name__, exc)})
                 obligations.append(("correspondence suite %s" % sname, False))
                 continue
-            suite_stats[sname] = {"cases": len(cases), "operations": steps, "mismatches": len(bad)}
+            hist = {}
+            for c in cases:
+                for st in c.steps:
+                    w = st.line.split(" ", 1)[0] if st.line else ""
+                    hist[w] = hist.get(w, 0) + 1
+            suite_stats[sname] = {"cases": len(cases), "operations": steps, "mismatches": len(bad),
+                                  "op_histogram": dict(sorted(hist.items()))}
             obligations.append(("correspondence suite %s: %d cases, %d operations, model = implementation"
                                 % (sname, len(cases), steps), not bad and not iso))
             if cases:
